@@ -335,7 +335,7 @@ func verifC06LowLevel(c verifC06Case, frame []byte) (kind, detail string) {
 
 // verifC06Shrink greedily simplifies a failing case keeping the failure kind.
 func verifC06Shrink(c verifC06Case, kind string) verifC06Case {
-	deadline := time.Now().Add(5 * time.Second)
+	deadline := time.Now().Add(1500 * time.Millisecond)
 	fails := func(x verifC06Case) bool {
 		if time.Now().After(deadline) {
 			return false
@@ -465,7 +465,7 @@ func verifC06Apply(c *verifC06Case, im verifC06Img) {
 // clamped by the codec for small images), both transfer syntaxes, a grid of sizes 1..80 in both
 // directions; image formats and fills are cycled deterministically.
 func TestVerif_C06_SizeGrid(t *testing.T) {
-	other := []int{1, 2, 3, 4, 5, 8, 9, 17, 33, 65}
+	other := []int{1, 2, 3, 4, 5, 8, 9, 17, 40}
 	if verifC06Thorough() {
 		other = nil
 		for v := 1; v <= 80; v++ {
@@ -507,9 +507,9 @@ func TestVerif_C06_SizeGrid(t *testing.T) {
 func TestVerif_C06_ParameterGrid(t *testing.T) {
 	rng := rand.New(rand.NewSource(verifC06Seed() ^ 0xC06))
 	blocks := []int{4, 8, 16, 32, 64}
-	perCombo, maxSize := 4, 130
+	perCombo, maxSize := 3, 100
 	if verifC06Thorough() {
-		perCombo, maxSize = 40, 260
+		perCombo, maxSize = 25, 260
 	}
 	r := verifC06NewReport("TestVerif_C06_ParameterGrid", fmt.Sprintf(
 		"all BlockWidth x BlockHeight in {4,8,16,32,64}^2 x NumLevels 0..6 (175 combos) x %d sizes each drawn from {1,2,3,5, k*B-1,k*B,k*B+1,k*B+2,k*B+3 (B=block dim, k=1..3), (B<<L)+-1} capped at %d; modes typed/generic/lowlevel cycled, both syntaxes, %d formats and %d fills cycled; seed=%d",
@@ -551,18 +551,18 @@ func TestVerif_C06_ParameterGrid(t *testing.T) {
 	r.finish(t)
 }
 
-// TestVerif_C06_TinyExhaustive: every size 1..12 x 1..12 with 4x4 blocks (the smallest the codec
-// accepts) and every NumLevels 0..6, noise and single-sample content: all partial-block shapes
+// TestVerif_C06_TinyExhaustive: every size 1..11 x 1..11 (1..20 thorough) with 4x4 blocks (the smallest the codec
+// accepts) and every NumLevels 0..6, noise, single-sample and extreme content: all partial-block shapes
 // 1x1..3x3 next to full blocks and all odd/even sub-band splits.
 func TestVerif_C06_TinyExhaustive(t *testing.T) {
-	maxDim := 12
-	levels := []int{0, 1, 2, 3, 6}
+	maxDim := 11
+	levels := []int{0, 1, 2, 6}
 	if verifC06Thorough() {
 		maxDim = 20
 		levels = []int{0, 1, 2, 3, 4, 5, 6}
 	}
 	r := verifC06NewReport("TestVerif_C06_TinyExhaustive", fmt.Sprintf(
-		"all (w,h) in 1..%d x 1..%d, BlockWidth=BlockHeight=4 typed parameters, NumLevels in %v, fills noise and single (alternate by level), formats cycled, both syntaxes alternating; seed=%d",
+		"all (w,h) in 1..%d x 1..%d, BlockWidth=BlockHeight=4 typed parameters, NumLevels in %v, fills noise/single/extremes cycled, formats cycled, both syntaxes alternating; seed=%d",
 		maxDim, maxDim, levels, verifC06Seed()))
 	i := 0
 	for w := 1; w <= maxDim; w++ {
@@ -582,9 +582,9 @@ func TestVerif_C06_TinyExhaustive(t *testing.T) {
 // TestVerif_C06_Contents: every fill x every image format x a few geometries x both syntaxes,
 // default parameters and one small-block setting.
 func TestVerif_C06_Contents(t *testing.T) {
-	sizes := [][2]int{{1, 1}, {1, 37}, {41, 1}, {3, 3}, {17, 13}, {33, 35}}
+	sizes := [][2]int{{1, 1}, {1, 37}, {41, 1}, {3, 3}, {17, 13}, {24, 21}}
 	if verifC06Thorough() {
-		sizes = append(sizes, [2]int{2, 2}, [2]int{64, 64}, [2]int{65, 67}, [2]int{128, 129}, [2]int{200, 3}, [2]int{5, 300}, [2]int{255, 257})
+		sizes = append(sizes, [2]int{2, 2}, [2]int{33, 35}, [2]int{64, 64}, [2]int{65, 67}, [2]int{128, 129}, [2]int{200, 3}, [2]int{5, 300}, [2]int{255, 257})
 	}
 	r := verifC06NewReport("TestVerif_C06_Contents", fmt.Sprintf(
 		"fills %v x %d image formats x sizes %v x {ts .201 default params, ts .202 typed 8x16 blocks 3 levels}; seed=%d",
@@ -613,7 +613,7 @@ func TestVerif_C06_RandomSample(t *testing.T) {
 	rng := rand.New(rand.NewSource(verifC06Seed() ^ 0x5A5A))
 	n, maxDim, budget := 200, 160, 8*time.Second
 	if verifC06Thorough() {
-		n, maxDim, budget = 3000, 600, 240*time.Second
+		n, maxDim, budget = 3000, 600, 150*time.Second
 	}
 	start := time.Now()
 	r := verifC06NewReport("TestVerif_C06_RandomSample", "")
